@@ -15,7 +15,7 @@ chk("C12",
     "writer kinds, capacities from 0) for InBounds/Exact/NoPartial/Sticky exhaustively within small bounds, four negative models "
     "must be refuted; TLAPS additionally PROVES, without bounds (any chunk set, capacities, number of calls), that len <= cap, that "
     "a copy is only started when it fits and that len equals the total length of the accepted chunks (spec/write/WriteProof.tla, "
-    "32 obligations); every TLC-enumerated behaviour is replayed state-by-state on the real diplomat-runtime (caller-supplied writer "
+    "54 obligations); every TLC-enumerated behaviour is replayed state-by-state on the real diplomat-runtime (caller-supplied writer "
     "built as a C caller would, fixed writer) through write_str and write_char, and seeded random runs of the real runtime "
     "(incl. the Rust-owned writer with allocation accounting from create to destroy) are validated as traces by Trace_Write.tla. The same machine is observed through the GENERATED API: a real bridge whose Rust body logs every write is driven through the "
     "generated C++ method (std::string writer) and C method (diplomat_buffer_write_*) under ASan, and the log including the string "
